@@ -334,6 +334,8 @@ func runC16(p *core.Program, r *core.Report) {
 	r.Rule("C16.zip-complete", "the gzip stream handed back by DoZip is complete: the compressor's Close() has run before its buffer is read", 1)
 	gzipClosedBeforeRead(p, r, "C16.zip-complete", []string{"util/compressutil"})
 	noSilentTruncation(p, r, "C16.zip-complete", []string{"util/compressutil"})
+	r.Rule("C16.zip-fresh", "the compressed bytes DoZip hands back are the caller's own: they are not the backing array of a buffer that is reused by the next compression (pooled, package-level), so a pack already handed to the client is not rewritten", 1)
+	freshBytesResult(p, r, "C16.zip-fresh", []string{"util/compressutil"})
 	c16Defaults(p, r)
 	for _, name := range []string{"Append", "sendAndClear", "SendDirect", "run"} {
 		if zipMethod(p, name) == nil {
